@@ -29,4 +29,145 @@ theorem failed_sweep_no_inflow (w : World) (src : Acc) (_hs : src.ty ≠ AT.inte
     (prepOne true w src).2.bal = w.bal ∧ (prepOne true w src).2.main = w.main := by
   simp [prepOne]
 
+/-! ### (d) made up later -/
+
+def sumA : List (Int × Bool) → Int
+  | [] => 0
+  | x :: xs => x.1 + sumA xs
+
+/-- one destination's record over blocks: each block adds `a` to the recorded remainder; unless
+    the payout of that block fails (`true`), the integer part is paid and the fraction kept -/
+def payLoopF : Int → List (Int × Bool) → Int × Int
+  | rem, [] => (0, rem)
+  | rem, (a, fail) :: rest =>
+    let r := rem + a
+    let p := if fail then 0 else (r / P) * P
+    ((payLoopF (r - p) rest).1 + p, (payLoopF (r - p) rest).2)
+
+/-- nothing is lost whatever fails: paid + still recorded = everything allocated -/
+theorem payLoopF_conserves : ∀ (blocks : List (Int × Bool)) (rem : Int),
+    (payLoopF rem blocks).1 + (payLoopF rem blocks).2 = rem + sumA blocks
+  | [], rem => by simp [payLoopF, sumA]
+  | (a, f) :: rest, rem => by
+    have ih := payLoopF_conserves rest (rem + a - (if f then 0 else (rem + a) / P * P))
+    simp only [payLoopF, sumA]
+    omega
+
+theorem payLoopF_rem_nonneg : ∀ (blocks : List (Int × Bool)) (rem : Int), 0 ≤ rem → (∀ b ∈ blocks, 0 ≤ b.1) →
+    0 ≤ (payLoopF rem blocks).2
+  | [], rem, h, _ => by simpa [payLoopF] using h
+  | (a, f) :: rest, rem, h, ha => by
+    have ha0 : 0 ≤ a := ha (a, f) (by simp)
+    have h1 := Int.ediv_mul_le (rem + a) (Int.ne_of_gt P_pos)
+    simp only [payLoopF]
+    apply payLoopF_rem_nonneg rest _ _ (fun b hb => ha b (by simp [hb]))
+    cases f <;> simp <;> omega
+
+/-- once a payout succeeds again the destination is made whole EXACTLY: if the last block's payout
+    did not fail, the total paid over the whole history equals the integer part of everything
+    allocated — which is what a history without any failure pays -/
+theorem made_up_exactly (blocks : List (Int × Bool)) (a : Int) (rem : Int) (h : 0 ≤ rem)
+    (ha : ∀ b ∈ blocks ++ [(a, false)], 0 ≤ b.1) :
+    (payLoopF rem (blocks ++ [(a, false)])).1 = ((rem + sumA (blocks ++ [(a, false)])) / P) * P ∧
+    (payLoopF rem (blocks ++ [(a, false)])).1
+      = (payLoopF rem ((blocks ++ [(a, false)]).map (fun b => (b.1, false)))).1 := by
+  have key : ∀ (bl : List (Int × Bool)) (r : Int), 0 ≤ r → (∀ b ∈ bl ++ [(a, false)], 0 ≤ b.1) →
+      (payLoopF r (bl ++ [(a, false)])).2 < P := by
+    intro bl
+    induction bl with
+    | nil =>
+      intro r hr _
+      simp only [List.nil_append, payLoopF, Bool.false_eq_true, if_false]
+      have h2 := Int.lt_ediv_add_one_mul_self (r + a) P_pos
+      have : ((r + a) / P + 1) * P = (r + a) / P * P + P := by rw [Int.add_mul]; omega
+      omega
+    | cons b bl ih =>
+      intro r hr hb
+      obtain ⟨x, f⟩ := b
+      have hx : 0 ≤ x := hb (x, f) (by simp)
+      have h1 := Int.ediv_mul_le (r + x) (Int.ne_of_gt P_pos)
+      simp only [List.cons_append, payLoopF]
+      apply ih _ _ (fun c hc => hb c (by simp at hc ⊢; right; exact hc))
+      cases f <;> simp <;> omega
+  have paidEq : ∀ (bl : List (Int × Bool)) (r : Int), 0 ≤ r → (∀ b ∈ bl ++ [(a, false)], 0 ≤ b.1) →
+      (payLoopF r (bl ++ [(a, false)])).1 = ((r + sumA (bl ++ [(a, false)])) / P) * P := by
+    intro bl r hr hb
+    have c := payLoopF_conserves (bl ++ [(a, false)]) r
+    have lt := key bl r hr hb
+    have nn := payLoopF_rem_nonneg (bl ++ [(a, false)]) r hr hb
+    -- paid is a multiple of P
+    have hmul : ∀ (l : List (Int × Bool)) (q : Int), ∃ k, (payLoopF q l).1 = k * P := by
+      intro l
+      induction l with
+      | nil => intro q; exact ⟨0, by simp [payLoopF]⟩
+      | cons b l ihl =>
+        intro q
+        obtain ⟨x, f⟩ := b
+        obtain ⟨k, hk⟩ := ihl (q + x - (if f then 0 else (q + x) / P * P))
+        simp only [payLoopF]
+        cases f
+        · exact ⟨k + (q + x) / P, by simp only [Bool.false_eq_true, if_false] at hk ⊢; rw [hk, Int.add_mul]⟩
+        · exact ⟨k, by simp only [if_true] at hk ⊢; rw [hk]; omega⟩
+    obtain ⟨k, hk⟩ := hmul (bl ++ [(a, false)]) r
+    generalize (payLoopF r (bl ++ [(a, false)])).1 = paid at *
+    generalize (payLoopF r (bl ++ [(a, false)])).2 = rm at *
+    generalize r + sumA (bl ++ [(a, false)]) = T at *
+    subst hk
+    have hT : T = rm + k * P := by omega
+    have : T / P = k := by
+      rw [hT, Int.add_mul_ediv_right _ _ (Int.ne_of_gt P_pos), Int.ediv_eq_zero_of_lt nn lt]; omega
+    rw [this]
+  refine ⟨paidEq blocks rem h ha, ?_⟩
+  rw [paidEq blocks rem h ha]
+  have hmap : (blocks ++ [(a, false)]).map (fun b => (b.1, false)) = blocks.map (fun b => (b.1, false)) ++ [(a, false)] := by
+    simp
+  rw [hmap, paidEq (blocks.map (fun b => (b.1, false))) rem h (by
+    intro b hb
+    rcases List.mem_append.mp hb with hb | hb
+    · obtain ⟨c, hc, rfl⟩ := List.mem_map.mp hb
+      exact ha c (by simp [hc])
+    · exact ha b (by simp at hb ⊢; right; exact hb))]
+  have hs : ∀ l : List (Int × Bool), sumA (l.map (fun b => (b.1, false))) = sumA l := by
+    intro l; induction l with
+    | nil => rfl
+    | cons b l ih => simp only [List.map_cons, sumA, ih]
+  have hs2 : ∀ l : List (Int × Bool), sumA (l ++ [(a, false)]) = sumA l + a := by
+    intro l; induction l with
+    | nil => simp [sumA]
+    | cons b l ih => simp only [List.cons_append, sumA, ih]; omega
+  rw [hs2, hs2, hs]
+
+/-- a delayed sweep: an inflow that arrives in one piece `x + y` (the earlier sweep failed) is
+    allocated to a share within 10^-18 of what the two separate inflows would have been allocated -/
+theorem delayed_sweep_bound (x y s : Int) (hx : 0 ≤ x) (hy : 0 ≤ y) (_hs : 0 ≤ s) :
+    mulTrunc x s + mulTrunc y s ≤ mulTrunc (x + y) s ∧ mulTrunc (x + y) s ≤ mulTrunc x s + mulTrunc y s + 1 := by
+  unfold mulTrunc
+  have hp : (0:Int) < P := P_pos
+  have e : (x + y) * s = x * s + y * s := Int.add_mul _ _ _
+  have a1 := Int.ediv_mul_le (x * s) (Int.ne_of_gt hp)
+  have a2 := Int.lt_ediv_add_one_mul_self (x * s) hp
+  have b1 := Int.ediv_mul_le (y * s) (Int.ne_of_gt hp)
+  have b2 := Int.lt_ediv_add_one_mul_self (y * s) hp
+  have c1 := Int.ediv_mul_le ((x + y) * s) (Int.ne_of_gt hp)
+  have c2 := Int.lt_ediv_add_one_mul_self ((x + y) * s) hp
+  rw [e] at c1 c2 ⊢
+  generalize x * s = X at *
+  generalize y * s = Y at *
+  generalize X / P = qx at *
+  generalize Y / P = qy at *
+  generalize (X + Y) / P = q at *
+  have ex : (qx + 1) * P = qx * P + P := by rw [Int.add_mul]; omega
+  have ey : (qy + 1) * P = qy * P + P := by rw [Int.add_mul]; omega
+  have eq : (q + 1) * P = q * P + P := by rw [Int.add_mul]; omega
+  constructor
+  · -- (qx + qy) * P ≤ X + Y < (q+1) * P  ⇒ qx + qy < q + 1
+    have h : (qx + qy) * P < (q + 1) * P := by rw [Int.add_mul]; omega
+    have := Int.lt_of_mul_lt_mul_right h (Int.le_of_lt hp)
+    omega
+  · have h : q * P < (qx + qy + 2) * P := by
+      have : (qx + qy + 2) * P = qx * P + qy * P + 2 * P := by rw [Int.add_mul, Int.add_mul]
+      omega
+    have := Int.lt_of_mul_lt_mul_right h (Int.le_of_lt hp)
+    omega
+
 end C4E.Props.C14
